@@ -7,6 +7,10 @@ MCReaders == {r1, r2}
 MCKinds   == {"RunPodSandbox", "StopPodSandbox", "RemovePodSandbox", "CreateContainer", "StartContainer", "UpdateContainer",
               "StopContainer", "RemoveContainer", "Synchronize", "Reconfigure"}
 MCKindsLive == {"CreateContainer", "Reconfigure", "StopPodSandbox", "RemovePodSandbox", "Synchronize"}
+\* named deviation: the handlers as they were before /repo commit 06edfe4 (finding F-C15-1) -- StopPodSandbox and
+\* Synchronize took no lock at all, RemovePodSandbox looked up the cache and ran hooks before taking it
+OldNoLockKinds    == {"StopPodSandbox", "Synchronize"}
+OldPreAccessKinds == {"RemovePodSandbox"}
 Symm      == Permutations(MCProcs) \cup Permutations(MCReaders)
 \* the log is a function of (kind, pc, held flags): leave it out of the fingerprint only where it is redundant -- it is not
 \* (the held flag of an access made before the lock depends on the schedule), so no VIEW is used.
